@@ -76,6 +76,9 @@ func c02One(c *mc.Ctx, prop string, k c02Case, enc, trail []byte) {
 	case o.Panic != nil:
 		bad("panic:"+o.Panic.Frame, "panic: %s at %s", o.Panic.Msg, o.Panic.Frame)
 		return
+	case o.StackMismatch:
+		bad("stack-held-input-differs", "%v", o.Err)
+		return
 	case o.AllocCap:
 		bad("alloc", "asked the allocator for more than the cap while skipping a %d-byte value", len(enc))
 		return
